@@ -59,7 +59,11 @@ def enc_mod(m):
 
 
 def encode(d):
-    out = [len(d["mods"]) - 2]
+    """d may carry "variant": m -- also run the variant in which module m falls silent instead of panicking"""
+    k = len(d["mods"]) - 2
+    if d.get("variant") is not None:
+        k += 3 * (d["variant"] + 1)
+    out = [k]
     for m in d["mods"]:
         out += enc_mod(m)
     for q in d["inj"]:
@@ -118,8 +122,10 @@ def dec_mod(c):
 
 def decode(script):
     c = Cur(list(script))
-    k = 2 + c.next() % 3
-    d = {"mods": [dec_mod(c) for _ in range(k)]}
+    k0 = c.next()
+    k = 2 + k0 % 3
+    v = (k0 // 3) % 5
+    d = {"mods": [dec_mod(c) for _ in range(k)], "variant": (v - 1) if 1 <= v <= k else None}
     inj = []
     while len(c.v) - c.i >= 4:
         kd, m, t, x = c.next(), c.next(), c.next(), c.next()
@@ -146,18 +152,32 @@ def join(hdr, ops):
     return out
 
 
-def records(out):
-    """implementation output -> (first run, second run), each a list of 5-tuples; raises on a malformed log"""
+R_VAR = 18
+
+
+def records3(out):
+    """implementation output -> (first run, second run, variant run or None); raises on a malformed log"""
     if len(out) % 5 != 0:
         raise ValueError("output length %d is not a multiple of 5" % len(out))
     rs = [tuple(out[i:i + 5]) for i in range(0, len(out), 5)]
     seps = [i for i, r in enumerate(rs) if r[0] == R_SEP]
     if len(seps) != 1:
         raise ValueError("expected exactly one separator record, found %d" % len(seps))
-    return rs[:seps[0]], rs[seps[0] + 1:]
+    rest = rs[seps[0] + 1:]
+    vs = [i for i, r in enumerate(rest) if r[0] == R_VAR]
+    if len(vs) > 1:
+        raise ValueError("more than one variant separator")
+    if vs:
+        return rs[:seps[0]], rest[:vs[0]], rest[vs[0] + 1:]
+    return rs[:seps[0]], rest, None
 
 
-NAMES = {1: "start", 2: "msg", 3: "task", 4: "timer", 5: "end", 6: "reset", 7: "log", 8: "send", 9: "sched", 10: "shut",
+def records(out):
+    a, b, _ = records3(out)
+    return a, b
+
+
+NAMES = {18: "|variant|", 1: "start", 2: "msg", 3: "task", 4: "timer", 5: "end", 6: "reset", 7: "log", 8: "send", 9: "sched", 10: "shut",
          11: "panic", 12: "quiet", 13: "cancel", 14: "ev", 15: "err", 16: "FUEL", 17: "||"}
 
 
@@ -245,3 +265,62 @@ def gen_random(rng):
     mods = [gen_mod(rng, p_ctl) for _ in range(k)]
     inj = [(rng.choice([0, 0, 1, 2]), rng.randrange(k), rng.choice(TIMES), rng.randint(0, 11)) for _ in range(rng.choice([0, 1, 2, 4, 6, 9]))]
     return encode({"mods": mods, "inj": inj})
+
+
+# ----------------------------------------------------------------------------- reading a run
+class Bad(Exception):
+    pass
+
+
+def rec_mod(r):
+    return None if r[0] in (R_SAMPLE, R_ERR, R_FUEL, R_SEP, R_VAR) else r[1]
+
+
+def rec_time(r):
+    """SimTime::now() a callback record was written at"""
+    return r[3] if r[0] in CALLS else None
+
+
+class Run:
+    """One simulation's log split into start-up phase, dispatched events and tear-down phase, with the
+    life-cycle bookkeeping a reader of the log can do: resets (incarnations), pending restarts, callback panics."""
+
+    def __init__(self, d, rs):
+        self.d = d
+        self.k = len(d["mods"])
+        self.start, self.boot, self.events, self.end, self.errs = phases(rs)
+        self.fuel = any(r[0] == R_FUEL for r in rs)
+
+    def units(self):
+        """yield (phase, time, mask-after or None, records without the sample) in log order; the start-up phase is cut
+        into one unit per at_sim_start call, the tear-down phase into one unit per at_sim_end call"""
+        cur = []
+        for r in self.start:
+            if r[0] == R_START and cur:
+                yield ("start", 0, None, cur); cur = []
+            cur.append(r)
+        if cur:
+            yield ("start", 0, None, cur)
+        for ev in self.events:
+            yield ("loop", ev[-1][1], ev[-1][2], ev[:-1])
+        cur = []
+        for r in self.end:
+            if r[0] == R_END and cur:
+                yield ("end", None, None, cur); cur = []
+            cur.append(r)
+        if cur:
+            yield ("end", None, None, cur)
+
+
+def request_of(now, recs, m):
+    """the shutdown request standing at the end of an event (ModuleContext::shutdown_task): the last
+    shutdown()/restart_in() wins, quiet keeps an earlier one.  None | ("stop",) | ("restart", T)"""
+    req = None
+    for r in recs:
+        if r[1] != m:
+            continue
+        if r[0] == R_SHUT:
+            req = ("restart", now + r[4]) if r[3] else ("stop",)
+        elif r[0] == R_QUIET and req is None:
+            req = ("stop",)
+    return req
